@@ -93,7 +93,7 @@ V_C03(S, e, T, aux) ==
   ELSE Tag(TotalBal(T) = TotalBal(S), "C03.total")
        \cup (IF e.tx.c \in {"engine", "ifund"} \/ IsVammName(e.tx.c)
                 \/ (e.tx.c = "fpool" /\ e.tx.m # "send_token")
-             THEN LET allowed == {e.tx.s, "engine", "ifund", "fpool"}
+             THEN LET allowed == {e.tx.s, "engine", "ifund", "fpool", S.eng.cfg.ifund, S.eng.cfg.fpool}
                   IN Tag(\A a \in Accounts(T) \ allowed : T.bal[a] = S.bal[a], "C03.frame")
                      \cup Tag(~e.res.ok \/ \A i \in OkX(e) :
                                  {e.xfers[i].from, e.xfers[i].to} \subseteq allowed, "C03.path")
@@ -380,6 +380,11 @@ V_C11(S, e, T, aux) ==
                       IN Tag(T.bal[t] - S.bal[t] = equity - newmargin - fees, "C11.charge_reversal")
                  ELSE {})
    ELSE {})
+\* the cumulative premium fraction of a vAMM changes only through a successful PayFunding on it
+V_C11b(S, e, T, aux) ==
+  UNION { IF EngOp(e, "pay_funding") /\ e.res.ok /\ e.tx.a.vamm = v THEN {}
+          ELSE Tag(Cpf(T, v) = Cpf(S, v) /\ Len(T.eng.vmap[v].cpf) = Len(S.eng.vmap[v].cpf), "C11.fraction_changed_without_settlement")
+        : v \in Vs(T) }
 A_C11(S, e, T, aux) ==
   IF EngOp(e, "pay_funding") /\ e.res.ok THEN
       {"settled"} \cup (IF e.xfers # <<>> THEN {"payment"} ELSE {})
@@ -658,7 +663,7 @@ Violations(id, S, e, T, aux) ==
     [] id = "C05" -> V_C05(S, e, T, aux) [] id = "C06" -> V_C06(S, e, T, aux)
     [] id = "C07" -> V_C07(S, e, T, aux) [] id = "C08" -> V_C08(S, e, T, aux)
     [] id = "C09" -> V_C09(S, e, T, aux) [] id = "C10" -> V_C10(S, e, T, aux)
-    [] id = "C11" -> V_C11(S, e, T, aux) [] id = "C12" -> V_C12(S, e, T, aux)
+    [] id = "C11" -> V_C11(S, e, T, aux) \cup V_C11b(S, e, T, aux) [] id = "C12" -> V_C12(S, e, T, aux)
     [] id = "C14" -> V_C14(S, e, T, aux) [] id = "C15" -> V_C15(S, e, T, aux)
     [] id = "C16" -> V_C16(S, e, T, aux) [] id = "C17" -> V_C17(S, e, T, aux)
     [] id = "C18" -> V_C18(S, e, T, aux) [] id = "C20" -> V_C20(S, e, T, aux)
